@@ -5,6 +5,7 @@ cd /verif
 miss=0
 for d in seeded/*/; do
   id=$(basename $d); prop=${id%-*}
+  alt=$(sed -n 's/.*"check_property": "\(C[0-9]*\)".*/\1/p' $d/meta.json); [ -n "$alt" ] && prop=$alt
   res=$(${TRY:-tools/try_seed.sh} /verif/$d/patch.diff $prop $tier 2>&1 | head -1)
   if grep -q '"expected_detection": false' $d/meta.json; then echo "by-decision-not-flagged $id $res" | cut -c1-150; continue; fi
   case "$res" in rc=1*) echo "caught $id $res" | cut -c1-150;; *) echo "MISSED $id $res" | cut -c1-150; miss=$((miss+1));; esac
